@@ -1329,7 +1329,61 @@ def d8_unbound(ctx, idx):
 
 
 # ------------------------------------------------------------------------ self-test
+# ---- refactorings seen through by the normaliser (return inside try, literal-table loop, dispatching catch-all), with slips
+_TRY_OLD = ("        try:\n            result = self.check(None, student_input)\n        except Exception as error:\n"
+            "            if self.config['debug']:\n                raise\n            elif isinstance(error, MITxError):\n"
+            "                # we want to re-raise the error with a modified message but the\n"
+            "                # same class type, hence calling __class__\n"
+            "                raise error.__class__(str(error).replace('\\n', '<br/>'))\n            else:\n"
+            "                # Otherwise, give a generic error message\n                if isinstance(student_input, list):\n"
+            "                    msg = \"Invalid Input: Could not check inputs '{}'\"\n"
+            "                    formatted = msg.format(\"', '\".join(student_input))\n                else:\n"
+            "                    msg = \"Invalid Input: Could not check input '{}'\"\n"
+            "                    formatted = msg.format(student_input)\n                raise StudentFacingError(formatted)\n")
+_TRY_CALL = "        result = self._guarded_check(student_input)\n"
+_APPLY_DEF = "    def apply_attempt_based_credit(self, result, attempt_number):\n"
+_GUARD_HELPER = ("    def _guarded_check(self, student_input):\n        try:\n            return self.check(None, student_input)\n"
+                 "        except %s as error:\n            if self.config['debug']:\n                raise\n"
+                 "            if isinstance(error, MITxError):\n"
+                 "                raise error.__class__(str(error).replace('\\n', '<br/>'))\n"
+                 "            raise self._student_safe_error(student_input)\n\n"
+                 "    @staticmethod\n    def _student_safe_error(student_input):\n"
+                 "        if isinstance(student_input, list):\n            template = \"Invalid Input: Could not check inputs '{}'\"\n"
+                 "            submitted = \"', '\".join(student_input)\n        else:\n"
+                 "            template = \"Invalid Input: Could not check input '{}'\"\n            submitted = %s\n"
+                 "        return StudentFacingError(template.format(submitted))\n\n")
+_EVALFN_OLD = ("        except ZeroDivisionError:\n"
+               "            # It would be really nice to tell student the symbolic argument as part of this message,\n"
+               "            # but making symbolic argument available would require some nontrivial restructing\n"
+               "            msg = (\"There was an error evaluating {name}(...). \"\n"
+               "                   \"Its input does not seem to be in its domain.\").format(name=name)\n"
+               "            raise CalcZeroDivisionError(msg)\n        except OverflowError:\n"
+               "            msg = (\"There was an error evaluating {name}(...). \"\n"
+               "                   \"(Numerical overflow).\").format(name=name)\n            raise CalcOverflowError(msg)\n"
+               "        except Exception: # pylint: disable=W0703\n"
+               "            # Don't know what this is, or how you want to deal with it\n            # Call it a domain issue.\n"
+               "            msg = (\"There was an error evaluating {name}(...). \"\n"
+               "                   \"Its input does not seem to be in its domain.\").format(name=name)\n"
+               "            raise FunctionEvalError(msg)\n")
+_EVALFN_NEW = ("        except Exception as error: # pylint: disable=W0703\n"
+               "            raise MathExpression._recast(error, name)\n\n"
+               "    _RECASTS = (\n%s    )\n\n"
+               "    @staticmethod\n    def _recast(error, name):\n"
+               "        for caught, replacement, explanation in MathExpression._RECASTS:\n"
+               "            if isinstance(error, caught):\n"
+               "                msg = (\"There was an error evaluating {name}(...). \" + explanation).format(name=name)\n"
+               "                return replacement(msg)\n")
+_ROW_ZERO = "        (ZeroDivisionError, CalcZeroDivisionError, \"Its input does not seem to be in its domain.\"),\n"
+_ROW_OVER = "        (OverflowError, CalcOverflowError, \"(Numerical overflow).\"),\n"
+_ROW_ANY = "        (Exception, FunctionEvalError, \"Its input does not seem to be in its domain.\"),\n"
+
 MUTANTS = [
+    Mutant('guarded-check-helper-catches-library-errors-only', BASE,
+           [(_TRY_OLD, _TRY_CALL), (_APPLY_DEF, (_GUARD_HELPER % ('MITxError', 'student_input')) + _APPLY_DEF)], None, 'D1'),
+    Mutant('guarded-check-helper-generic-message-without-input', BASE,
+           [(_TRY_OLD, _TRY_CALL), (_APPLY_DEF, (_GUARD_HELPER % ('Exception', "'...'")).replace("\"', '\".join(student_input)", "'...'") + _APPLY_DEF)], None, 'D1'),
+    Mutant('evalfunction-table-catch-all-row-first', EXPR, [(_EVALFN_OLD, _EVALFN_NEW % (_ROW_ANY + _ROW_ZERO + _ROW_OVER))], None, 'D5'),
+    Mutant('evalfunction-table-overflow-row-lost', EXPR, [(_EVALFN_OLD, _EVALFN_NEW % (_ROW_ZERO + _ROW_ANY))], None, 'D5'),
     Mutant('grammar-error-stop-escapes-translation (seed C02h)', EXPR, '        parentheses = Group(Suppress("(") +\n', '        parentheses = Group(Suppress("(") -\n', 'D5'),
     Mutant('debuglog-json-without-fallback (F11)', BASE, "json.dumps(self.modified_defaults, default=repr)", "json.dumps(self.modified_defaults)", 'D2'),
     Mutant('override-drops-kwargs (seed C17g)', 'mitxgraders/stringgrader.py',
@@ -1385,6 +1439,9 @@ MUTANTS = [
 ]
 
 BENIGN = [
+    Benign('guarded-check-moved-to-helper-with-error-factory', BASE,
+           [(_TRY_OLD, _TRY_CALL), (_APPLY_DEF, (_GUARD_HELPER % ('Exception', 'student_input')) + _APPLY_DEF)], None),
+    Benign('evalfunction-handlers-as-table-dispatch', EXPR, [(_EVALFN_OLD, _EVALFN_NEW % (_ROW_ZERO + _ROW_OVER + _ROW_ANY))], None),
     Benign('text-schemas-hoisted-to-module-constants', BASE,
            [("                return Schema([str])(student_input)", "                return _TEXT_LIST_SCHEMA(student_input)"),
             ("                return Schema(str)(student_input)", "                return _TEXT_SCHEMA(student_input)"),
